@@ -18,7 +18,8 @@ from . import thread_sched as ts
 FILES = ("optuna/storages/_in_memory.py", "optuna/storages/journal/_storage.py", "optuna/storages/_cached_storage.py",
          "optuna/storages/_base.py", "optuna/study/study.py")
 K1_SIG = "sqlite:compare-and-set-not-atomic-across-connections"
-PARAMS = {"x": ("int", 0, 7), "y": ("float", 0.0, 8.0), "c": ("cat", ["a", "b", "c"])}
+# None is a legal categorical choice (and a legal FIXED value: "fixed to None" is not "not fixed")
+PARAMS = {"x": ("int", 0, 7), "y": ("float", 0.0, 8.0), "c": ("cat", ["a", "b", None, "c"])}
 
 
 def tok(name, v):
